@@ -207,6 +207,21 @@ _ERRNO_CLASS = {   # errno -> the exception classes an OSError with that errno i
 }
 
 
+_LOST = None
+
+
+def _ends(g, facts, srcs):
+    """what the function returns on every way out of the OSError handler under the errno facts: [(node, value)], value = the abstract LOST object for
+    main.CONNECTION_LOST, a constant, or NotConst when not determined"""
+    global _LOST
+    from sa.props._lib_d import abstract_instance, returns_under
+    if _LOST is None:
+        _LOST = abstract_instance("<main.CONNECTION_LOST>", {"ConnectionLost"})
+    f2 = dict(facts)
+    f2.update({"main.CONNECTION_LOST": _LOST, "CONNECTION_LOST": _LOST})
+    return returns_under(g, f2, srcs=srcs)
+
+
 def _errno_cases(g, call_node):
     """The exception handlers attached to ``call_node``.  Returns (all handler ids, hs(errno), facts(errno)): ``hs(errno)`` is the handler that
     catches an OSError carrying that errno - the first one, in source order, whose type covers the exception's class (a handler may select by
@@ -634,19 +649,27 @@ def _check(ctx):
         ctx.need(recv0, "self.socket.recv in doRead")
         allh, hs, facts = _errno_cases(g, recv0[0][0])
         ctx.need(allh, "an exception handler around recv()")
-        for n in lost:
-            # evaluated on the errno: with EWOULDBLOCK the loss is not reported, with another errno (EPIPE) it is
-            R = reach_under(g, facts(11), srcs=hs(11))
-            ctx.check(n not in R and g.exit in R, "tcp-read/wouldblock-is-not-loss", ctx.construct(q, g.node(n).ast),
-                      "EWOULDBLOCK from recv() is reported as a lost connection")
+        # evaluated on the errno, by what doRead RETURNS (a return statement may select its value with a conditional expression): with EWOULDBLOCK
+        # nothing truthy is returned, with another errno (EPIPE) CONNECTION_LOST is
+        from sa.astx import NotConst as _NC
+        ends = _ends(g, facts(11), hs(11))
+        if any(v is _NC for _, v in ends):
+            ctx.note("tcp-read/wouldblock-is-not-loss: the value returned for EWOULDBLOCK could not be evaluated; not decided")
+        else:
+            ctx.check(bool(ends) and all(v is not _LOST and not v for _, v in ends), "tcp-read/wouldblock-is-not-loss", q + " | <EWOULDBLOCK>",
+                      "EWOULDBLOCK from recv() is reported as a lost connection: doRead returns " + repr([v for _, v in ends]))
         for code, name in ((11, "EWOULDBLOCK"), (32, "EPIPE")):
             ctx.check(bool(hs(code)), "tcp-read/errno-handled", q + f" | <{name}>", f"an OSError with errno {name} raised by recv() is not caught in doRead")
         for code in (11, 32):
             und = undecided_tests(g, facts(code), srcs=hs(code))
             if und:
                 ctx.note("tcp-read: the OSError handler of recv() also branches on " + src(g.node(und[0]).ast) + " (left free in the errno evaluation)")
-        w = must_pass_under(g, facts(32), lost, srcs=hs(32))
-        ctx.check(w is None, "tcp-read/error-is-loss", q + " | <errno other than EWOULDBLOCK>", "a failing recv() is not reported as CONNECTION_LOST", witness=g.describe(w))
+        ends = _ends(g, facts(32), hs(32))
+        if any(v is _NC for _, v in ends):
+            ctx.note("tcp-read/error-is-loss: the value returned for a failing recv() could not be evaluated; not decided")
+        else:
+            ctx.check(bool(ends) and all(v is _LOST for _, v in ends), "tcp-read/error-is-loss", q + " | <errno other than EWOULDBLOCK>",
+                      "a failing recv() is not reported as CONNECTION_LOST: doRead returns " + repr([v for _, v in ends]))
         recvs = calls_with(g, "self.socket.recv")
         ctx.need(recvs, "self.socket.recv in doRead")
         dr = call_nodes(g, "self._dataReceived")
@@ -700,20 +723,25 @@ def _check(ctx):
             und = undecided_tests(g, facts(code), srcs=hs(code))
             if und:
                 ctx.note("tcp-write: the OSError handler of send() also branches on " + src(g.node(und[0]).ast) + " (left free in the errno evaluation)")
+        from sa.astx import NotConst as _NC
         for code, name in ((11, "EWOULDBLOCK"), (105, "ENOBUFS")):
-            R = reach_under(g, facts(code), srcs=hs(code))
-            w = must_pass_under(g, facts(code), zero, srcs=hs(code))
-            for n in lost:
-                ctx.check(n not in R, "tcp-write/wouldblock-is-not-loss", ctx.construct(q, g.node(n).ast) + (" | ENOBUFS" if code == 105 else ""),
-                          f"{name} from send() is reported as a lost connection")
-            ctx.check(bool(zero) and w is None, "tcp-write/wouldblock-means-zero", q + f" | <{name}>", f"{name} from send() does not make writeSomeData report 0 bytes accepted",
-                      witness=g.describe(w))
-        R = reach_under(g, facts(32), srcs=hs(32))
-        for n in zero:
-            ctx.check(n not in R, "tcp-write/zero-only-wouldblock", ctx.construct(q, g.node(n).ast), "writeSomeData reports 0 bytes for an error other than EWOULDBLOCK/ENOBUFS")
-        w = must_pass_under(g, facts(32), lost, srcs=hs(32))
-        ctx.check(bool(lost) and w is None, "tcp-write/error-is-loss", q + " | <errno other than EWOULDBLOCK/ENOBUFS>", "a failing send() is not reported as CONNECTION_LOST",
-                  witness=g.describe(w))
+            ends = _ends(g, facts(code), hs(code))
+            tag = " | ENOBUFS" if code == 105 else ""
+            if any(v is _NC for _, v in ends):
+                ctx.note(f"tcp-write/wouldblock-is-not-loss, tcp-write/wouldblock-means-zero: the value returned for {name} could not be evaluated; not decided")
+                continue
+            ctx.check(bool(ends) and all(v is not _LOST for _, v in ends), "tcp-write/wouldblock-is-not-loss", q + f" | <{name}>" + tag,
+                      f"{name} from send() is reported as a lost connection")
+            ctx.check(bool(ends) and all(v is not _LOST and v == 0 and v is not False and v is not None for _, v in ends), "tcp-write/wouldblock-means-zero", q + f" | <{name}>",
+                      f"{name} from send() does not make writeSomeData report 0 bytes accepted: it returns " + repr([v for _, v in ends]))
+        ends = _ends(g, facts(32), hs(32))
+        if any(v is _NC for _, v in ends):
+            ctx.note("tcp-write/error-is-loss, tcp-write/zero-only-wouldblock: the value returned for a failing send() could not be evaluated; not decided")
+        else:
+            ctx.check(not any(v is not _LOST and v == 0 for _, v in ends), "tcp-write/zero-only-wouldblock", q + " | <errno other than EWOULDBLOCK/ENOBUFS>",
+                      "writeSomeData reports 0 bytes for an error other than EWOULDBLOCK/ENOBUFS")
+            ctx.check(bool(ends) and all(v is _LOST for _, v in ends), "tcp-write/error-is-loss", q + " | <errno other than EWOULDBLOCK/ENOBUFS>",
+                      "a failing send() is not reported as CONNECTION_LOST: writeSomeData returns " + repr([v for _, v in ends]))
         ctx.floor("tcp-write", len(zero) + len(lost), 2)
 
     with ctx.section("tcp Connection._closeWriteConnection"):
